@@ -123,6 +123,10 @@ def replay(arg):
     # a generator step with two outputs (a source compiled into the program
     # and a header every object is compiled against) is part of the project
     gen = names.pop('_gen', '')
+    # the include directory is a header_directory searched recursively (its
+    # sub-directories are watched by the build files); a deleted header
+    # takes its then empty directory with it
+    hd = names.pop('_hd', '')
     pch = ", pch=precompiled_header(file='pch.h', includes=['.'])" \
         if 'h0' in names else ''
     files = {'build.bfg': "project('p')\nexecutable('prog', "
@@ -141,6 +145,10 @@ def replay(arg):
         files['main.c'] = files['main.c'].replace(
             'int main', 'int val_gen(void);int main').replace(
             'val_s2());', 'val_s2() + val_gen());')
+    if hd:
+        files['build.bfg'] = files['build.bfg'].replace(
+            "includes=['.'", "includes=[header_directory('.', "
+            "include='**/*.h')")
     p = regen.Proj(files, backend=backend)
     try:
         fs = Files(p.src, names, s2)
@@ -207,6 +215,10 @@ def replay(arg):
             elif op == 'delete':
                 os.remove(fs.path(f))
                 fs.hinc[f] = set()
+                d_ = os.path.dirname(fs.path(f))
+                while hd and d_ != p.src and not os.listdir(d_):
+                    os.rmdir(d_)
+                    d_ = os.path.dirname(d_)
             elif op == 'recreate':
                 fs.ver[f] += 1
                 fs.write(f)
@@ -366,6 +378,9 @@ def main(argv):
     for i, job in enumerate(jobs):
         if i % 2 == 0:
             job[2]['_gen'] = '1'
+        if i % 5 == 1 or (job[0] is directed and any(
+                '/' in v for k, v in job[2].items() if k in ('h1', 'h2'))):
+            job[2]['_hd'] = '1'
     res = pmap(replay, jobs, jobs=12)
     traces = [{'id': i + 1, 'events': [
         {k: v for k, v in e.items() if k != 'note'} for e in ev]}
